@@ -2,6 +2,7 @@
 package main
 
 import (
+	"fmt"
 	"math/big"
 	"math/rand"
 	"sort"
@@ -92,4 +93,62 @@ func mintParamsFor(r *rand.Rand) minttypes.Params {
 		}
 	}
 	return p
+}
+
+// mintProbe: C17/C13 — draws extreme mint parameter sets, keeps those the module's own Validate accepts, boots a
+// chain from each and processes blocks through every phase (and two blocks past the last); each run is written as
+// an ordinary history file <prefix>_<i>.txt, so that an aborting begin blocker shows up as a replayable history.
+func mintProbe(seed int64, n int, prefix string) {
+	r := rand.New(rand.NewSource(seed))
+	acc := 0
+	for i := 0; i < n; i++ {
+		p := mintParamsFor(r)
+		if r.Intn(2) == 0 {
+			p.Phases = p.Phases[:1+r.Intn(len(p.Phases))] // more short schedules: boundary cases of "last phase"
+		}
+		p = applyExtreme(p, r)
+		if p.Validate() != nil {
+			continue
+		}
+		cfg := GenesisFor("mint", r)
+		cfg.Mint = p
+		func() {
+			h := newHistWriter(fmt.Sprintf("%s_%d.txt", prefix, acc))
+			defer h.close()
+			acc++
+			c, err := NewChain(cfg)
+			if err != nil {
+				h.line("BOOTFAIL " + strings.ReplaceAll(err.Error(), "\n", " "))
+				return
+			}
+			h.line(genLine(c))
+			mon := NewMonitors()
+			defer func() { h.line(fmt.Sprintf("MONCOUNT %d", mon.evals)) }()
+			total := int64(2)
+			for _, ph := range p.Phases {
+				total += ph.YearCoefficient.MulInt64(p.BlocksPerYear).TruncateInt64()
+			}
+			if total > 80 {
+				total = 80
+			}
+			t := cfg.StartTime
+			for b := int64(0); b < total && !c.Halted; b++ {
+				t += 5
+				if step(c, h, Op{Kind: "BEGIN", T: t}, mon) == "panic" {
+					return
+				}
+				if step(c, h, Op{Kind: "END"}, mon) == "panic" {
+					return
+				}
+			}
+		}()
+	}
+}
+
+func init() {
+	extraModes["mintprobe"] = func(args []string) {
+		seed, _ := strconv.ParseInt(args[0], 10, 64)
+		n, _ := strconv.Atoi(args[1])
+		mintProbe(seed, n, args[2])
+	}
 }
